@@ -73,7 +73,7 @@ def gen_cases(ctx, n_cases, gen, depth_max, bound=2 ** 20, accept=None):
                 continue
         elif u < 0.40:
             t = gen.tree(rnd.randint(1, depth_max), None, "mix")
-        elif u < 0.47 and {"Transp", "Adj"} & set(gen.kinds):
+        elif u < 0.50 and {"Transp", "Adj"} & set(gen.kinds):
             # lazy Transpose / Adjoint directly over every leaf kind at size 3 (a permutation needs a 3-cycle, a sparse
             # pattern several entries per column, ... to tell a left product from a right one)
             lk = [k_ for k_ in T.LEAF if k_ in gen.kinds]
@@ -81,6 +81,8 @@ def gen_cases(ctx, n_cases, gen, depth_max, bound=2 ** 20, accept=None):
             inner = T.rooted(gen, k, 3, 3 if k in T.SQUARE_ONLY else rnd.randint(2, 3), cplx=rnd.choice([False, True]), depth=0)
             if inner is None:
                 continue
+            if k == "Perm" and rnd.random() < 0.7:
+                inner = dict(inner, p=rnd.choice([[1, 2, 0], [2, 0, 1]]))     # a 3-cycle: P^T != P
             t = dict(k=rnd.choice([w for w in ("Transp", "Adj") if w in gen.kinds]), a=inner)
             if rnd.random() < 0.2:
                 t = dict(k=rnd.choice([w for w in ("Transp", "Adj") if w in gen.kinds]), a=t)
